@@ -18,13 +18,22 @@ class MarkerLookup(LookupError):
     pass
 
 
+class BadRepr(Exception):
+    """an exception whose repr() / str() themselves fail"""
+    def __repr__(self):
+        raise RuntimeError('repr failed')
+
+    def __str__(self):
+        raise RuntimeError('str failed')
+
+
 EXC_TYPES = dict(ValueError=ValueError, KeyError=KeyError, TypeError=TypeError, AssertionError=AssertionError,
                  RuntimeError=RuntimeError, MarkerLookup=MarkerLookup, MarkerBoom=MarkerBoom,
                  ZeroDivisionError=ZeroDivisionError, Exception=Exception, AttributeError=AttributeError,
                  StopIteration=StopIteration, OSError=OSError, NotImplementedError=NotImplementedError,
                  # the library's own exception types that are NOT protocol errors, raised by a method body
                  DeserializationError=exc.DeserializationError, IdentityError=exc.IdentityError, BaseError=exc.BaseError,
-                 LookupError=LookupError, UnicodeDecodeError=UnicodeError, RecursionError=RecursionError)
+                 LookupError=LookupError, UnicodeDecodeError=UnicodeError, RecursionError=RecursionError, BadRepr=BadRepr)
 
 
 def _late_exc_types():
@@ -100,6 +109,8 @@ def build_function(name, beh, log, is_async=False, pause=True):
         if kind == 'boom':
             if beh['exc'] not in EXC_TYPES:
                 _late_exc_types()
+            if beh['exc'] == 'HugeInt':
+                raise OverflowError(10 ** 5000)          # rendering this exception exceeds the int -> str digit limit
             raise EXC_TYPES[beh['exc']]('%s %s' % (MARK, beh['exc']))
         raise AssertionError(kind)
 
